@@ -262,6 +262,35 @@ def run(ctx):
         ok = norm(fa) == norm(fb)
         ctx.ob('C08.d', ci.qual, ok, '' if ok else f'exact equality reads {sorted(fa)} but approximate equality reads {sorted(fb)}', ci.mod.rel, a.lineno)
 
+    # every stored constructor parameter of a gate / operation takes part in its value equality
+    ctx.decided.append('C08.d2 value equality of gates and operations looks at every constructor parameter that backs stored state (two gates that differ in such a '
+                       'parameter have different matrices but would compare - and hash - equal)')
+    ctx.rule('C08.d2', 'equality completeness: for every Gate / Operation class with _value_equality_values_, each constructor parameter that is stored is read by the equality values '
+             '(tolerances and caches excepted, see table)', floor=50, style='COH')
+    EQ_PARAM_EXEMPT = {
+        ('cirq.ops.pauli_sum_exponential.PauliSumExponential', 'atol'): 'tolerance of the commutation check made in __init__, not part of the value',
+    }
+    for ci in sorted(repo.classes.values(), key=lambda c: c.qual):
+        if '.testing.' in ci.qual or '.contrib.' in ci.qual:
+            continue
+        ve = ci.methods.get('_value_equality_values_')
+        if ve is None or not (repo.is_subclass(ci, Gate) or repo.is_subclass(ci, Op)):
+            continue
+        p2f = F.init_param_to_field(repo, ci)
+        rd = F.self_reads(repo, ci, ve, depth=2)
+        if not p2f or '<self>' in rd:
+            continue
+        miss = []
+        for p_, fs in p2f.items():
+            fs = {f for f in fs if '.' not in f}
+            if not fs or (ci.qual, p_) in EQ_PARAM_EXEMPT:
+                continue
+            if fs & rd or F.norm_field(repo, ci, p_) in rd or any(p_ == r.lstrip('_') for r in rd):
+                continue
+            miss.append(p_)
+        ctx.ob('C08.d2', ci.qual + (':' + ','.join(miss) if miss else ''), not miss,
+               '' if not miss else f'{ci.name}.__init__ stores {miss}, but _value_equality_values_ ignores {"it" if len(miss) == 1 else "them"}: '
+               f'two {ci.name}s that differ only there compare and hash equal although they are different operations', ci.mod.rel, ve.lineno, construct=ci.qual)
     _commutes_rules(ctx, repo)
 
 
